@@ -105,6 +105,41 @@ TINY = [_g("ZPow", e=1e-9, s=0.0), _g("XPow", e=1e-9, s=0.0), _g("CZPow", e=1e-9
         _g("XPow", e=1e-4, s=0.0), _g("CZPow", e=2.0, s=0.0)]
 ZEROQ = [_g("GlobalPhase", turns=0.25), _g("GlobalPhase", turns=0.5)]
 
+SWAPLIKE = [_g("SwapPow", e=1.0, s=0.0), _g("ISwapPow", e=1.0, s=0.0), _g("ISwapPow", e=-1.0, s=0.0), _g("ISwapPow", e=3.0, s=0.0),
+            _g("FSim", theta=math.pi / 2, phi=0.3), _g("FSim", theta=-math.pi / 2, phi=1.1), _g("FSim", theta=3 * math.pi / 2, phi=0.0)]
+
+
+def swap_tail(dims):
+    """... [PhasedXZ / PhasedX on a] [Z**t / PhasedXZ on b] swap-like(a,b) [swap-like again] [measurements]: the shape in which eject_z has
+    to carry a tracked phase across a swap while a PhasedXZ is pending on the partner wire; nothing but swaps/measurements follows."""
+
+    @st.composite
+    def tail(draw):
+        qw = [i for i, d in enumerate(dims) if d == 2]
+        a, b = list(draw(st.permutations(qw)))[:2]
+        phxz = st.fixed_dictionaries({"x": G.exponents(), "z": G.exponents(), "a": G.exponents()}).map(lambda p: ["PhasedXZ", p])
+        phx = st.fixed_dictionaries({"p": G.exponents(), "e": G.exponents(), "s": st.just(0.0)}).map(lambda p: ["PhasedXPow", p])
+        zt = G.exponents().map(lambda e: ["ZPow", {"e": e, "s": 0.0}])
+        ops = []
+
+        def add(g, w, ins=0):
+            ops.append({"k": "g", "g": g, "w": w, "ins": ins, "tag": 0})
+
+        first = draw(st.sampled_from(["phxz", "phxz", "phx", "none"]))
+        if first != "none":
+            add(draw(phxz if first == "phxz" else phx), [a])
+        for _ in range(draw(st.integers(1, 2))):
+            add(draw(st.one_of(zt, zt, phxz)), [b], draw(st.sampled_from([0, 0, 1])))
+        if draw(st.integers(0, 3)) == 0:
+            add(draw(zt), [a])
+        for _ in range(draw(st.sampled_from([1, 1, 1, 2, 3]))):
+            w = [a, b] if draw(st.booleans()) else [b, a]
+            add(draw(st.sampled_from(SWAPLIKE)), w, draw(st.sampled_from([0, 0, 1])))
+        return ops
+
+    return tail()
+
+
 ROWS: dict = {}
 
 
@@ -161,13 +196,13 @@ reg(Row("expand_composite", ("expand_composite",), _expand, opts=st.fixed_dictio
 reg(Row("eject_z", ("eject_z",),
         lambda c, o: cirq.eject_z(c, context=ctx(o), atol=_atol(o, 0.0), eject_parameterized=bool(X(o, "ep"))),
         opts=st.fixed_dictionaries({"atol": ATOLS, "ep": st.booleans()}),
-        unitary=U(param=True, boost=Z_LIKE + X_LIKE + SWAPS + PHXZ + [CZ1], boost_p=0.6, sub_tags=(0, 0, 0, 1, 1, 2, 4)),
-        records=M(boost=Z_LIKE + X_LIKE + SWAPS + [CZ1], boost_p=0.5, sub_tags=(0, 0, 0, 1, 1, 2, 4)), tol=atol_tol(0.0), sub_policy="subset", weight=4))
+        unitary=U(param=True, boost=Z_LIKE + X_LIKE + SWAPS + PHXZ + [CZ1], boost_p=0.6, sub_tags=(0, 0, 0, 1, 1, 2, 4), tail=swap_tail),
+        records=M(boost=Z_LIKE + X_LIKE + SWAPS + [CZ1], boost_p=0.5, sub_tags=(0, 0, 0, 1, 1, 2, 4), tail=swap_tail, tail_p=3), tol=atol_tol(0.0), sub_policy="subset", weight=4))
 reg(Row("eject_phased_paulis", ("eject_phased_paulis",),
         lambda c, o: cirq.eject_phased_paulis(c, context=ctx(o), atol=_atol(o, 1e-8), eject_parameterized=bool(X(o, "ep"))),
         opts=st.fixed_dictionaries({"atol": ATOLS, "ep": st.booleans()}),
-        unitary=U(param=True, boost=Z_LIKE + X_LIKE + PHXZ + [CZ1, _g("CZPow", e=0.3, s=0.0)], boost_p=0.65),
-        records=M(boost=Z_LIKE + X_LIKE + [CZ1], boost_p=0.5), tol=atol_tol(1e-8), weight=4))
+        unitary=U(param=True, boost=Z_LIKE + X_LIKE + PHXZ + [CZ1, _g("CZPow", e=0.3, s=0.0)], boost_p=0.65, tail=swap_tail, tail_p=2),
+        records=M(boost=Z_LIKE + X_LIKE + [CZ1], boost_p=0.5, tail=swap_tail, tail_p=2), tol=atol_tol(1e-8), weight=4))
 
 reg(Row("merge_single_qubit_gates_to_phased_x_and_z", ("merge_single_qubit_gates_to_phased_x_and_z",),
         lambda c, o: cirq.merge_single_qubit_gates_to_phased_x_and_z(c, context=ctx(o), atol=_atol(o, 1e-8)),
